@@ -389,7 +389,7 @@ def _pmap(fn, jobs, workers):
         return list(ex.map(fn, jobs, chunksize=1))
 
 
-def solve_all(obligations, timeout_ms=10000, workers=None, use_cvc5=True, prefer=None):
+def solve_all(obligations, timeout_ms=10000, workers=None, use_cvc5=True, prefer=None, _split=True):
     """Discharge obligations in parallel, in three stages of increasing cost. Returns {oid: result-dict}.
     prefer: {oid: "cvc5"} ordering hints (which solver discharged the obligation on the baseline run)."""
     prefer = prefer or {}
@@ -422,4 +422,47 @@ def solve_all(obligations, timeout_ms=10000, workers=None, use_cvc5=True, prefer
     jobs3 = [(o, texts[o], timeout_ms, names[o], results[o]) for o in open_]
     for r in _pmap(_stage_slow, jobs3, workers):
         results[r["oid"]] = r
+    # stage 4 (only for what is still open): a goal of the form  P -> (A and B and ...)  is discharged conjunct by conjunct
+    # (same hypotheses; all parts `unsat` = the obligation is discharged; anything else leaves the earlier verdict)
+    if not _split:
+        return results
+    from .state import Obligation
+
+    parts_of, subobs = {}, []
+    for o, r in results.items():
+        ob = by_oid[o]
+        if r["verdict"] in ("sat", "unsat") or ob.expect != "unsat":
+            continue
+        parts = _goal_parts(ob.goal)
+        if len(parts) < 2:
+            continue
+        parts_of[o] = []
+        for k, g in enumerate(parts):
+            sub = Obligation(f"{o}//part{k}", ob.kind, ob.hyps, g, ob.line, "unsat")
+            parts_of[o].append(sub.oid)
+            subobs.append(sub)
+    if subobs:
+        sub_res = solve_all(subobs, timeout_ms, workers, use_cvc5, None, _split=False)
+        for o, ids in parts_of.items():
+            if all(sub_res[i]["verdict"] == "unsat" for i in ids):
+                results[o] = {"oid": o, "verdict": "unsat", "solver": f"goal split into {len(ids)} conjuncts ("
+                              + ", ".join(sorted({sub_res[i]["solver"].split(" ")[0] for i in ids})) + ")",
+                              "reason": "", "model": None,
+                              "time": results[o].get("time", 0) + sum(sub_res[i].get("time", 0) for i in ids)}
     return results
+
+
+def _goal_parts(goal):
+    """[P -> A, P -> B, ...] for a goal  P -> (A and B ...)  (also written Or(Not P, And(...))), [A, B ...] for a plain
+    conjunction, else [goal]."""
+    g = z3.simplify(goal)
+    if z3.is_and(g):
+        return list(g.children())
+    if z3.is_implies(g) and z3.is_and(g.arg(1)):
+        return [z3.Implies(g.arg(0), c) for c in g.arg(1).children()]
+    if z3.is_or(g):
+        ands = [c for c in g.children() if z3.is_and(c)]
+        if len(ands) == 1:
+            rest = [c for c in g.children() if not c.eq(ands[0])]
+            return [z3.Or(*rest, c) for c in ands[0].children()]
+    return [goal]
